@@ -45,6 +45,10 @@ def stream(args):
             d = os.path.join(V, 'seeded', sid)
             meta = json.load(open(os.path.join(d, 'meta.json')))
             patch = os.path.join(d, 'patch.diff')
+            # the same change ported by hand where a later fix: commit
+            # rewrote the lines the original patch touches
+            if os.path.exists(os.path.join(d, 'patch_head.diff')):
+                patch = os.path.join(d, 'patch_head.diff')
             r = sh(f"git -C {wt} apply {patch}")
             if r.returncode != 0:
                 r = sh(f"git -C {wt} apply --3way {patch}")
